@@ -10,7 +10,7 @@ import scipy
 import scipy.signal
 import z3
 
-from symex import arrays, core, stubs
+from symex import arrays, core, purity, stubs
 from symex.core import SReal, all_, and_, any_, implies, ite, not_, or_
 from symex.harness import Case, Twin
 
@@ -145,13 +145,18 @@ def _groups(ctx, nc, k=2):
 def case_car(ctx, nc, ns, operator, grouped):
     import ibldsp.voltage as v
     rows, x = _data(ctx, nc, ns)
+    b_x = purity.snap(x)
     if grouped:
         g, coll = _groups(ctx, nc)
         out = ctx.call("car", v.car, x, collection=coll, operator=operator)
         gv = [int(ctx.concretize(core._it(e))) if isinstance(e, core.Sym) else int(e) for e in g]
+        again = ctx.call("car", v.car, x, collection=coll, operator=operator)
     else:
         out = ctx.call("car", v.car, x, operator=operator)
         gv = [0] * nc
+        again = ctx.call("car", v.car, x, operator=operator)
+    purity.oblige_untouched(ctx, "car_leaves_its_input_untouched", x, b_x)
+    purity.oblige_same_result(ctx, "second_identical_call_gives_the_same_result", out, again)
     if not ctx.oblige("car_shape", tuple(out.shape) == (nc, ns)):
         return
     for grp in sorted(set(gv)):
